@@ -242,6 +242,9 @@ KEYWORDS = [
     G('kw-list', [Rule('M', Plus(A(S(Str('a'), Asg('xs', '+=', ID)), S(Str('ab'), Asg('ys', '+=', INT)))))], tags=['kw']),
     G('kw-sep', [Rule('M', Asg('xs', '+=', INT, sep=Str('and')))], tags=['kw']),
     G('kw-regex', [Rule('M', S(Str('b'), Asg('h', '=', Re(r'x[a-c]+')), Opt(Str('end'))))], tags=['kw']),
+    # the Comment rule as a choice of regex literals with letters: comments are matched like any other literal
+    G('kw-comment-choice', [Rule('M', S(Str('b'), Asg('x', '=', ID))),
+                            Rule('Comment', A(Re(r'c\b.*$'), Re(r'#.*$')))], tags=['kw']),
     # regex literals made of plain characters only: under ignore_case the value is the text as written in the input
     G('kw-plain-regex', [Rule('M', S(Str('w'), Asg('u', '=', Re(r'kg')), Opt(S(Str('x'), Asg('m', '=', Ref('Unit')))))),
                          Rule('Unit', Re(r'lb'))], tags=['kw']),
